@@ -194,6 +194,7 @@ func runC12(r *core.Run) {
 					debug.SetPanicOnFault(true)
 					page := newROPage()
 					cv := core.NewConv(cfg)
+					cv.Borrowed = true
 					return func(word []byte) uint64 { return c12Doc(s, cv, cfg, page, word) }
 				})
 		}
@@ -210,6 +211,7 @@ func runC12(r *core.Run) {
 				debug.SetPanicOnFault(true)
 				page := newROPage()
 				cv := core.NewConv(cfg)
+				cv.Borrowed = true
 				return func(i int) {
 					if h := c12Doc(s, cv, cfg, page, docs[i]); h != 0 {
 						s.Distinct(h)
@@ -442,6 +444,7 @@ func replayC12(r *core.Run, v *core.Violation) {
 			return
 		}
 		cv := core.NewConv(cfg)
+		cv.Borrowed = true
 		faulted, what, _ := guarded(func() {
 			_, _, pan := cv.Convert(src)
 			if pan != nil {
